@@ -205,3 +205,19 @@ Proof.
   split; [reflexivity|]. split; [|split]; intros E1 E2; rewrite E1, E2; cbn; repeat split; reflexivity.
 Qed.
 Print Assumptions C16_documented_rules_spelled_out.
+
+(* required_base<T, Derived> (same translator): comparisons are the comparisons of the underlying values,
+   in_range is min_value() <= value <= max_value(), for all values of the eight integer types *)
+Local Open Scope string_scope.
+Theorem C16_source_required_compares_values : forall o T v1 v2,
+  in_range T v1 = true -> in_range T v2 = true ->
+  effs_eval [("lhs.val", v1); ("rhs.val", v2)] (src_req_cmp o T) = Some [zb (ecmp o v1 v2)].
+Proof. exact src_req_cmp_is_spec. Qed.
+Print Assumptions C16_source_required_compares_values.
+
+Theorem C16_source_required_in_range : forall T v mn mx,
+  in_range T v = true -> in_range T mn = true -> in_range T mx = true ->
+  effs_eval [("val", v); ("min_value()", mn); ("max_value()", mx)] (src_req_in_range T)
+  = Some [zb ((mn <=? v)%Z && (v <=? mx)%Z)].
+Proof. exact src_req_in_range_spec. Qed.
+Print Assumptions C16_source_required_in_range.
